@@ -286,10 +286,11 @@ fn judge(case: &Case, tr: &Trace, ctx: &Ctx, notes: &mut Vec<String>) -> Result<
         if r.ev != *e {
           return Err((format!("wrong-terminal:{name}"), format!("source terminal {:?}, delivered {:?}", e, r.ev)));
         }
-        // the completion is delayed like an item; an error may be forwarded at once
-        if matches!(e, Ev::C) && r.vt < t + min_d {
-          return Err((format!("early:{name}"), format!("completion produced at t={t} delivered at t={}", r.vt)));
-        }
+        // (the statement times items only: when the terminal is forwarded is not constrained, as long as it comes after
+        // every item - which the order / completeness part below decides. An earlier version demanded that a
+        // completion is delayed like an item and raised a false alarm on a change that forwards the completion of an
+        // empty source at once.)
+        let _ = t;
       }
     }
   }
